@@ -11,7 +11,13 @@
 (*       be empty;                                                         *)
 (*    FreshNonces - a public nonce / public excess handed out under one    *)
 (*       slate id never appears under another one, across the WHOLE run    *)
-(*       (all behaviours, all wallets).                                    *)
+(*       (all behaviours, all wallets);                                    *)
+(*    ContextConsumed - after every successful finalize_tx (any flow) the  *)
+(*       finalizer holds no private context of that slate any more;        *)
+(*    NonceSignsOnce - a public nonce that carries a partial signature is  *)
+(*       only ever seen signing for ONE participant set (one challenge):   *)
+(*       e.g. an invoice finalized twice against two different payers'     *)
+(*       replies would sign twice with the issuer's nonce.                 *)
 (*  Layer M (report only): the stored contexts, the entries of the slate   *)
 (*    handed back and the set of at-rest leaks are what the Secrets.tla    *)
 (*    step predicts, the fresh atoms being bound from the log.             *)
@@ -20,8 +26,8 @@ EXTENDS Secrets, Json, IOUtils, TLCExt, SequencesExt
 
 CONSTANT CheckM
 
-VARIABLES l, st, seenN, seenX, told     \* told: <<behaviour, leak class>> already reported (output volume)
-tvars == <<l, st, seenN, seenX, told>>
+VARIABLES l, st, seenN, seenX, sctx, told     \* told: <<behaviour, leak class>> already reported (output volume)
+tvars == <<l, st, seenN, seenX, sctx, told>>
 
 Rec == ndJsonDeserialize(IOEnv.TRACE)
 Has(r, f) == f \in DOMAIN r
@@ -64,6 +70,18 @@ FreshMon(e) ==
      /\ Check(p.x \in DOMAIN seenX => seenX[p.x] = key, "FreshNonces", e, "excess:" \o e.ev,
               [atom |-> p.x, first |-> IF p.x \in DOMAIN seenX THEN seenX[p.x] ELSE key, now |-> key])
 
+\* the participant set a signature of this step commits to: the finished slate's entries,
+\* or the entries the call was given plus its own
+AllParts(e) == IF e.ev = "finalize" THEN ObsParts(e.sec.out) ELSE ObsParts(e.sec.inparts) \cup ObsParts(e.sec.out)
+SignsOnceMon(e) ==
+  \A p \in ObsParts(e.sec.out) :
+     Check((p.sig /\ p.n \in DOMAIN sctx) => sctx[p.n] = Pairs(AllParts(e)), "NonceSignsOnce", e,
+           e.ev \o ":" \o (IF "stage" \in DOMAIN e THEN e.stage ELSE ""),
+           [nonce |-> p.n, before |-> IF p.n \in DOMAIN sctx THEN sctx[p.n] ELSE {}, now |-> Pairs(AllParts(e))])
+ConsumedMon(e, obs) ==
+  (e.ev = "finalize" /\ Ok(e) /\ e.w \in DOMAIN obs.ctx) =>
+     Check(ContextConsumed(obs, e.w, e.sl), "ContextConsumed", e, "finalize:" \o e.stage, [w |-> e.w, sl |-> e.sl])
+
 \* ------------------------------------------------------------- Layer M
 \* the Secrets.tla step of the logged call, fresh atoms bound from the observation
 Pred(e, obs) ==
@@ -83,7 +101,7 @@ Pred(e, obs) ==
 
 TReset == /\ IsEv("reset")
           /\ NoClearSecretMon(E)
-          /\ l' = l + 1 /\ st' = ObsCtx(E.sec) /\ told' = told \cup NewLeaks(E) /\ UNCHANGED <<seenN, seenX>>
+          /\ l' = l + 1 /\ st' = ObsCtx(E.sec) /\ told' = told \cup NewLeaks(E) /\ UNCHANGED <<seenN, seenX, sctx>>
 
 Steps == {"init_send", "receive", "lock", "finalize", "cancel", "post", "mine", "refresh", "issue_invoice", "process_invoice"}
 TStep ==
@@ -95,6 +113,8 @@ TStep ==
          r == Pred(e, obs) IN
      /\ NoClearSecretMon(e)
      /\ FreshMon(e)
+     /\ SignsOnceMon(e)
+     /\ ConsumedMon(e, obs)
      /\ CheckM_(r.st = obs, e, "ctx", [exp |-> r.st, obs |-> obs])
      /\ CheckM_(r.out = out, e, "out", [exp |-> r.out, obs |-> out])
      /\ CheckM_(PredLeaks(obs) = ObsLeaks(e.sec), e, "leaks",
@@ -103,12 +123,13 @@ TStep ==
      /\ l' = l + 1 /\ st' = obs /\ told' = told \cup NewLeaks(e)
      /\ seenN' = SeenAfter(seenN, key, {p.n : p \in out})
      /\ seenX' = SeenAfter(seenX, key, {p.x : p \in out})
+     /\ sctx' = SctxAfter(sctx, out, AllParts(e))
 
 TOther == /\ l <= Len(Rec) /\ Rec[l].ev \notin (Steps \cup {"reset"})
           /\ CheckM_(FALSE, E, "unknown-event", E.ev)
-          /\ l' = l + 1 /\ UNCHANGED <<st, seenN, seenX, told>>
+          /\ l' = l + 1 /\ UNCHANGED <<st, seenN, seenX, sctx, told>>
 
-TInit == l = 1 /\ st = [ctx |-> <<>>] /\ seenN = <<>> /\ seenX = <<>> /\ told = {}
+TInit == l = 1 /\ st = [ctx |-> <<>>] /\ seenN = <<>> /\ seenX = <<>> /\ sctx = <<>> /\ told = {}
 TNext == TReset \/ TStep \/ TOther
 TSpec == TInit /\ [][TNext]_tvars
 
